@@ -789,8 +789,15 @@ func (s *sim) step() {
 	}
 }
 
-// genConformant builds one conformant history.
-func genConformant(r *rand.Rand) Case {
+// genConformant builds one conformant history (mostly 10-70 lines, sometimes up to 300).
+func genConformant(r *rand.Rand) Case { return genConformantN(r, false) }
+
+// genConformantLong: 100-300 lines, from a generator stream of its own.
+func genConformantLong(r *rand.Rand) Case {
+	return genConformantN(rand.New(rand.NewSource(r.Int63()^0x5bd1e995)), true)
+}
+
+func genConformantN(r *rand.Rand, long bool) Case {
 	s := &sim{r: r, cats: map[string]bool{}, serverName: "irc.test"}
 	s.multiPrefix, s.uhNames, s.extJoin = r.Intn(2) == 0, r.Intn(2) == 0, r.Intn(2) == 0
 	s.whox, s.acctTag = r.Intn(2) == 0, r.Intn(2) == 0
@@ -827,7 +834,7 @@ func genConformant(r *rand.Rand) Case {
 	}
 	s.welcome(cfgNick)
 	target := 10 + r.Intn(60)
-	if r.Intn(6) == 0 {
+	if long || r.Intn(12) == 0 {
 		target = 100 + r.Intn(200)
 	}
 	for guard := 0; len(s.evs) < target && guard < 2000; guard++ {
@@ -1232,6 +1239,7 @@ func init() {
 		Gen: genConformant,
 		Run: runConformant,
 	})
+	Register(&Suite{Name: "state.conformant.long", Prop: []string{"C04"}, Gen: genConformantLong, Run: runConformant})
 	Register(&Suite{
 		Name: "state.beyond",
 		Prop: []string{"C04"},
